@@ -80,6 +80,24 @@ def run(ctx):
     for c in gcases:
         if not c.get('_skip_model'):
             cases.append(c); kinds.append('import-graph')
+    # @extern files (name line written in several YAML spellings: the loader finds a position for the plain one only) whose types are used,
+    # declared again in the IDL, or both - directly and through an imported file: diagnostics, never an internal error
+    from ..common import run_impl
+    from .c17 import FULL as _FULL
+    okx, resx = run_impl('gen_run', {'cases': [{'files': {'e.pydjinni': 'ext_t = record { a: i32; }\n'}, 'ops': [['parse', 'e.pydjinni'], ['generate', 'yaml']],
+                                                'options': {'generate': dict(_FULL)}, 'keep_content': True}]})
+    ext_yaml = resx['results'][0]['tree'].get('out/yaml/ext_t.yaml') if okx and 'tree' in resx['results'][0] else None
+    if not ext_yaml:
+        ctx.broken.append({'kind': 'harness', 'name': 'extern fixture', 'detail': str(resx)[-800:]}); return
+    spellings = [lambda y: y, lambda y: y.replace('name: ext_t', 'name: "ext_t"', 1), lambda y: y.replace('name: ext_t', "name: ext_t   # the type", 1),
+                 lambda y: y.replace('name: ext_t', "'name': ext_t", 1), lambda y: y.replace('name: ext_t', 'name:   ext_t', 1)]
+    bodies = ['u = record { x: ext_t; }\n', 'ext_t = enum { a; }\n', 'ext_t = enum { a; }\nu = record { x: ext_t; }\n', 'u = record { x: ext_t; y: nope; }\n',
+              'namespace n { ext_t = enum { a; } u = record { x: ext_t; y: .ext_t; } }\n']
+    for sp in spellings:
+        for b_ in bodies:
+            cases.append({'files': {'ext.yaml': sp(ext_yaml), 'main.pydjinni': '@extern "ext.yaml"\n' + b_}, 'root': 'main.pydjinni'}); kinds.append('extern')
+            cases.append({'files': {'ext.yaml': sp(ext_yaml), 'lib.pydjinni': '@extern "ext.yaml"\nlibt = enum { a; }\n', 'main.pydjinni': '@import "lib.pydjinni"\n' + b_},
+                          'root': 'main.pydjinni'}); kinds.append('extern-via-import')
     t0 = time.time()
     mism, obs = kfront.run(ctx, 'c06', cases, parts=('errors',))
     if obs is None:
@@ -115,4 +133,4 @@ def run(ctx):
                  'namespaces, inline functions; balanced and unbalanced) of generated programs, mutations inside imported files, and unknown '
                  'types in every syntactic position (field, parameter, return, throws, property, error-code parameter, inline function, '
                  'generic argument, optional); valid programs with documentation commands of every shape in their comments; import graphs with '
-                 'cycles, self imports, missing files and non-canonical path spellings')
+                 'cycles, self imports, missing files and non-canonical path spellings; @extern files in five YAML spellings of the name line whose types are used and / or declared again')
